@@ -23,6 +23,13 @@ pub struct Cfg {
     /// then polled at 0, 2 s and 4 s (three carousel turns of `count` transfers each)
     #[serde(default)]
     pub carousel: u8,
+    /// create the stream object without Content-MD5 (no MD5 pass over the source before the first transfer)
+    #[serde(default)]
+    pub no_md5: bool,
+    /// where the stream stands when it is handed to flute: 0 at its start, 1 after one byte, 2 in the
+    /// middle, 3 at its end (the object is the whole stream: every transfer re-reads it from its start)
+    #[serde(default)]
+    pub start_pos: u8,
 }
 
 #[derive(Serialize, Deserialize, Clone, Debug)]
@@ -87,6 +94,7 @@ fn spec(cfg: &Cfg) -> ObjSpec {
     let mut o = ObjSpec::simple(cfg.len, 7);
     o.oti = Some(OtiSpec::new(cfg.scheme, cfg.e, cfg.b, cfg.parity, true));
     o.count = cfg.count;
+    o.md5 = !cfg.no_md5;
     o.carousel = match cfg.carousel {
         0 => None,
         1 => Some(Carousel::Delay(500)),
@@ -163,12 +171,19 @@ fn run_planned(cfg: &Cfg, want: &[Vec<u8>], plan: Box<dyn FnMut(usize) -> usize 
     let short = Arc::new(AtomicUsize::new(0));
     let r = catch(|| -> Result<Vec<Vec<u8>>, String> {
         let o = spec(cfg);
-        let st = PlannedStream { data: o.content(), pos: 0, plan: Arc::new(Mutex::new(plan)), armed: armed.clone(), reads: reads.clone(), short: short.clone() };
+        let data = o.content();
+        let pos = match cfg.start_pos {
+            0 => 0,
+            1 => 1.min(data.len()),
+            2 => data.len() / 2,
+            _ => data.len(),
+        };
+        let st = PlannedStream { data, pos, plan: Arc::new(Mutex::new(plan)), armed: armed.clone(), reads: reads.clone(), short: short.clone() };
         let url = url::Url::parse(&o.location).unwrap();
         // armed from the start: the reads made while the descriptor is created (Content-MD5, length)
         // are chunked too
         armed.store(true, Ordering::SeqCst);
-        let desc = ObjectDesc::create_from_stream(Box::new(st), &o.ctype, &url, true, o.transfer_config()?).map_err(|e| e.0.to_string())?;
+        let desc = ObjectDesc::create_from_stream(Box::new(st), &o.ctype, &url, !cfg.no_md5, o.transfer_config()?).map_err(|e| e.0.to_string())?;
         emit(cfg, desc)
     });
     obs.reads = reads.load(Ordering::SeqCst);
@@ -215,11 +230,20 @@ fn run_fixed(cfg: &Cfg, want: &[Vec<u8>], mode: &str) -> Obs {
                 std::fs::write(&p, o.content()).map_err(|e| e.to_string())?;
                 let url = url::Url::parse(&o.location).unwrap();
                 let desc = if mode == "file" {
-                    ObjectDesc::create_from_file(&p, Some(&url), &o.ctype, false, true, o.transfer_config()?).map_err(|e| e.0.to_string())?
+                    ObjectDesc::create_from_file(&p, Some(&url), &o.ctype, false, !cfg.no_md5, o.transfer_config()?).map_err(|e| e.0.to_string())?
                 } else {
+                    use std::io::Seek;
                     let f = std::fs::File::open(&p).map_err(|e| e.to_string())?;
-                    let br = std::io::BufReader::with_capacity(3, f);
-                    ObjectDesc::create_from_stream(Box::new(br), &o.ctype, &url, true, o.transfer_config()?).map_err(|e| e.0.to_string())?
+                    let mut br = std::io::BufReader::with_capacity(3, f);
+                    let len = o.content().len() as u64;
+                    let pos = match cfg.start_pos {
+                        0 => 0,
+                        1 => 1.min(len),
+                        2 => len / 2,
+                        _ => len,
+                    };
+                    br.seek(std::io::SeekFrom::Start(pos)).map_err(|e| e.to_string())?;
+                    ObjectDesc::create_from_stream(Box::new(br), &o.ctype, &url, !cfg.no_md5, o.transfer_config()?).map_err(|e| e.0.to_string())?
                 };
                 emit(cfg, desc)
             });
@@ -269,10 +293,24 @@ pub fn configs(thorough: bool) -> Vec<Cfg> {
                         if interleave == 2 && (count == 2 || !thorough && scheme != Scheme::NoCode) {
                             continue;
                         }
-                        v.push(Cfg { scheme, e, b, parity, len, count, interleave, carousel: 0 });
+                        v.push(Cfg { scheme, e, b, parity, len, count, interleave, carousel: 0, no_md5: false, start_pos: 0 });
+                        // streams handed over at another position than their start, with and without the MD5 pass
+                        if interleave == 1 && (thorough || scheme == Scheme::NoCode || len % 2 == 0) {
+                            for start_pos in 0..4u8 {
+                                for no_md5 in [true, false] {
+                                    if start_pos == 0 && !no_md5 {
+                                        continue;
+                                    }
+                                    if !thorough && (start_pos as usize + len + no_md5 as usize) % 2 == 0 && start_pos != 2 {
+                                        continue;
+                                    }
+                                    v.push(Cfg { scheme, e, b, parity, len, count, interleave, carousel: 0, no_md5, start_pos });
+                                }
+                            }
+                        }
                         // carousel turns: the source is re-read from its start in every transfer of every turn
                         if interleave == 1 && (thorough || len % 3 == 0 || len == lmax) {
-                            v.push(Cfg { scheme, e, b, parity, len, count, interleave, carousel: 1 + (len % 2) as u8 });
+                            v.push(Cfg { scheme, e, b, parity, len, count, interleave, carousel: 1 + (len % 2) as u8, no_md5: len % 4 == 1, start_pos: 0 });
                         }
                     }
                 }
